@@ -53,6 +53,12 @@ check("C07", "model_checking",
       "sequentially consistent interleavings of atomic operations; weak-memory effects inside triple_buffer are not modelled; streaming seek / loop-region commands that are read by the decoder thread are exercised under C09/C10.",
       "DESIGN.md §3 C07")
 
+check("C02", "model_checking",
+      "exhaustive enumeration of small mixer configurations and add/remove/pause histories on the real manager in lock-step with a reference evaluation of the documented signal flow (probe sounds and probe effects log every process call)",
+      "All 9 forests of <= 3 sub-tracks x internal buffer {1,2,3,4} x {0,1,2} send tracks x every subset of {main, tracks} carrying an index-coded probe sound x one perturbation at a time (volume -6.02 / -60 dB on each track, main, send, route; all -6 dB; two-buffer volume tween; three order-sensitive probe-effect chains on each track, main, send; two sounds on one track) x callback patterns from {1,3,4,7} frames, plus every history of length <= 3 (4 thorough) over {play sound on main / each track, drop track handle, finish sound, pause, resume, drop send handle}. After every callback the rendered frames are compared with the reference sum (exact silence demanded where the reference is silent), and every probe sound / effect must have been asked for exactly the frames of the callback, in order, in slices <= the internal buffer, with dt = 1/sample rate; monitors: no panic, no allocation, output well-formed, no destruction on the audio thread.",
+      "trees of <= 3 sub-tracks stand for all trees; f32 summation order is not specified, so comparison is within 4e-6 (signals are >= 2^-7); built-in effects are replaced by order-sensitive probe effects here (their DSP is C13/C14's subject).",
+      "DESIGN.md §3 C02")
+
 NOT_YET = {}
 
 def main():
